@@ -353,3 +353,36 @@ package recordio
 //@ func IsDirectIOAvailable
 //@   assumed
 //@   modifies nothing
+
+// ---------------------------------------------------------------------------------------------------
+// The vendored buffered writer below FileWriter (C07, C04, C13): bytes reach the underlying writer in the order they were
+// written - the direct write of a large chunk happens only when nothing is buffered - and the buffer indices stay in bounds.
+//@ func (*Writer).Available
+//@   props C07 C04
+//@   requires 0 <= b.n && b.n <= len(b.buf)
+//@   ensures r0 == len(b.buf) - b.n
+//@   modifies nothing
+
+//@ func (*Writer).Flush
+//@   props C07 C04 C13
+//@   requires 0 <= b.n && b.n <= len(b.buf) && b.wr != nil
+//@   // (after a failed aligned flush the count can drop below zero; the writer is unusable then: every later call returns b.err first)
+//@   ensures [success-empties-the-buffer] r0 == nil ==> b.n == 0 && b.err == old(b.err) && old(b.err) == nil
+//@   ensures [failure-is-sticky] r0 != nil ==> b.err != nil
+//@   ensures [nothing-buffered-nothing-written] old(b.n) == 0 && old(b.err) == nil ==> r0 == nil
+//@   loop 0
+//@     invariant 0 <= b.n && b.n <= i && i <= len(b.buf) && b.err == nil
+//@   modifies b.n, b.err, b.buf[*]
+//@   safety on
+
+//@ func (*Writer).Write
+//@   props C07 C04 C13
+//@   replay file_writer_programs
+//@   requires 0 <= b.n && b.n <= len(b.buf) && b.wr != nil && len(p) < 4611686018427387904
+//@   ensures [buffer-in-bounds] r1 == nil ==> 0 <= b.n && b.n <= len(b.buf)
+//@   ensures [everything-taken-or-error] r1 == nil ==> r0 == old(len(p))
+//@   call 0 of WriteSeekerCloser.Write: assert [C07,C04:direct-write-only-with-an-empty-buffer] b.n == 0
+//@   loop 0
+//@     invariant 0 <= b.n && b.n <= len(b.buf) && 0 <= nn && nn + len(p) == old(len(p)) && b.wr != nil
+//@   modifies b.n, b.err, b.buf[*]
+//@   safety on
